@@ -97,3 +97,21 @@ def read_info(transport, path):
     except Exception:
         return ("<corrupt>", None, None, None)
     return (info.nonce, info.pid, info.hostname, info.user)
+
+
+def install_yes_ui():
+    """Silent UI that answers yes to every boolean question (break_lock asks 'Break
+    (corrupt ...)?' through get_boolean, which the plain silent UI does not implement).
+    Idempotent."""
+    from breezy import ui
+
+    if getattr(ui.ui_factory, "_verif_yes", False):
+        return
+
+    class YesUI(ui.SilentUIFactory):
+        _verif_yes = True
+
+        def get_boolean(self, prompt):
+            return True
+
+    ui.ui_factory = YesUI()
